@@ -337,6 +337,11 @@ class mm_reader {
 };
 
 namespace detail {
+// 8bit integers are numbers here, not characters (see mm_reader::read_value)
+inline std::ostream& write_value(std::ostream &s, char v) {
+    return s << static_cast<int>(v);
+}
+
 template <typename Val>
 typename std::enable_if<is_complex<Val>::value, std::ostream&>::type
 write_value(std::ostream &s, Val v) {
